@@ -463,3 +463,85 @@ def index_functions() -> str:
             + f"Definition gen_counts_as_expression (v_x : pyval) : M pyval :=\n  {cpred}.\n"
             + f"Definition gen_rank_mismatch (ndim cnt : Z) : bool := {cmpop}.\n"
             + f"Definition gen_rank_exn : exn := {exc}.\n")
+
+
+# ------------------------------------------------------------------ census (C01/C07/C16) --
+
+VALUE_ATTRS = ("to_numpy", "_eager_value", "_static_shape", "ORT_PRESENT")
+
+
+def census():
+    """Every read of an eager value / static shape / ORT flag in ndonnx/, with its enclosing
+    function; and the decorator + body shape of every function of _opset_extensions.py."""
+    sites = []
+    for f in sorted((core.REPO / "ndonnx").rglob("*.py")):
+        rel = str(f.relative_to(core.REPO))
+        mod = ast.parse(f.read_text())
+
+        def visit(node, qual):
+            for ch in ast.iter_child_nodes(node):
+                if isinstance(ch, (ast.FunctionDef, ast.ClassDef)):
+                    visit(ch, qual + [ch.name])
+                else:
+                    for n in ast.walk(ch) if not isinstance(ch, (ast.FunctionDef, ast.ClassDef)) else []:
+                        if isinstance(n, (ast.FunctionDef, ast.ClassDef)):
+                            continue
+                        name = None
+                        if isinstance(n, ast.Attribute) and n.attr in VALUE_ATTRS:
+                            name = n.attr
+                        elif isinstance(n, ast.Name) and n.id in VALUE_ATTRS:
+                            name = n.id
+                        if name:
+                            sites.append(f"{rel}:{'.'.join(qual) or '<module>'}:{name}")
+        # nested function bodies are visited through visit(); ast.walk above would double count
+        # nested defs, so walk statement-wise
+        def walk_stmts(body, qual):
+            for st in body:
+                if isinstance(st, (ast.FunctionDef, ast.AsyncFunctionDef, ast.ClassDef)):
+                    walk_stmts(st.body, qual + [st.name])
+                    for d in getattr(st, "decorator_list", []):
+                        scan(d, qual)
+                else:
+                    scan(st, qual)
+
+        def scan(node, qual):
+            stack = [node]
+            while stack:
+                n = stack.pop()
+                if isinstance(n, (ast.FunctionDef, ast.AsyncFunctionDef, ast.ClassDef, ast.Lambda)) and n is not node:
+                    if isinstance(n, ast.Lambda):
+                        stack.extend(ast.iter_child_nodes(n))
+                    else:
+                        walk_stmts(n.body, qual + [n.name])
+                    continue
+                name = None
+                if isinstance(n, ast.Attribute) and n.attr in VALUE_ATTRS:
+                    name = n.attr
+                elif isinstance(n, ast.Name) and n.id in VALUE_ATTRS:
+                    name = n.id
+                if name:
+                    sites.append(f"{rel}:{'.'.join(qual) or '<module>'}:{name}")
+                stack.extend(ast.iter_child_nodes(n))
+        sites.clear() if False else None
+        walk_stmts(mod.body, [])
+    counted = {}
+    for s in sites:
+        counted[s] = counted.get(s, 0) + 1
+    site_rows = [f"{k}#{v}" for k, v in sorted(counted.items())]
+    # _opset_extensions: decorator and body shape
+    text, mod = src("ndonnx/_opset_extensions.py")
+    prim_rows = []
+    for n in mod.body:
+        if isinstance(n, ast.FunctionDef):
+            decos = [ast.unparse(d) for d in n.decorator_list]
+            body = [s for s in n.body if not (isinstance(s, ast.Expr) and isinstance(s.value, ast.Constant))]
+            simple = len(body) == 1 and isinstance(body[0], ast.Return)
+            uses_value = any(isinstance(x, ast.Attribute) and x.attr in ("to_numpy", "_eager_value") for x in ast.walk(n))
+            prim_rows.append(f"{n.name}|{','.join(decos)}|{'simple' if simple else 'multi'}|{'reads-value' if uses_value else 'var-only'}")
+    return site_rows, prim_rows
+
+
+def emit_census(site_rows, prim_rows) -> str:
+    hdr = "From Coq Require Import List String.\nImport ListNotations.\nOpen Scope string_scope.\n\n"
+    return (hdr + "Definition sites : list string := [\n" + ";\n".join("  " + qs(s) for s in site_rows) + "\n].\n\n"
+            + "Definition primitives : list string := [\n" + ";\n".join("  " + qs(s) for s in prim_rows) + "\n].\n")
